@@ -152,10 +152,12 @@ impl Prop for C18 {
         Err(_) => None,
       }
     };
-    // deep-fetch twin of the request (candidate_size covering everything), for classification
+    // deep-fetch twin of the request (limit and candidate_size covering everything, so every group
+    // is present), for classification
     let deep = {
       let mut r = req.clone();
       r["candidate_size"] = json!(ALL);
+      r["limit"] = json!(ALL);
       run(&built.reader, &r).ok()
     };
     let main_uses_score = plan_json(&sort).as_array().map(|a| a.iter().any(|p| p["f"] == "score")).unwrap_or(false);
